@@ -14,12 +14,14 @@ package origin
 import (
 	"fmt"
 	"go/token"
+	"go/types"
 	"sort"
 
 	"golang.org/x/tools/go/callgraph"
 	"golang.org/x/tools/go/ssa"
 
 	"wtfverif/checker/internal/ssau"
+	"wtfverif/checker/internal/symx"
 )
 
 // Root is a terminal origin of a traced value.
@@ -50,6 +52,10 @@ type Tracer struct {
 	// ThroughOps lists binary operators whose operands are followed (e.g.
 	// token.ADD for string concatenation). Others are roots of kind op.
 	ThroughOps map[token.Token]bool
+	// Sx, when set, makes loads of local cells and of fields of local struct
+	// cells flow-sensitive: only the stores that can reach the load (by the
+	// versioned-memory analysis of package symx) are followed.
+	Sx *symx.Ctx
 	// ThroughFields follows loads of struct fields of non-local objects to
 	// every store into the same (type, field) in the functions listed.
 	FieldStoresIn []*ssa.Function
@@ -385,7 +391,60 @@ func (t *Tracer) walkParam(p *ssa.Parameter, seen map[ssa.Value]bool, out map[st
 	}
 }
 
+// reaching returns the values that the stores reaching load u wrote, when the
+// versioned-memory analysis can enumerate them exactly.
+func (t *Tracer) reaching(u *ssa.UnOp) ([]ssa.Value, bool) {
+	if t.Sx == nil || u.Parent() == nil {
+		return nil, false
+	}
+	f := t.Sx.Of(u.Parent())
+	key, loc := f.LoadKey(u)
+	if key == "" {
+		return nil, false
+	}
+	var vals []ssa.Value
+	seen := map[string]bool{}
+	var resolve func(ver string) bool
+	resolve = func(ver string) bool {
+		if seen[ver] {
+			return true
+		}
+		seen[ver] = true
+		if in := f.InstrByID(ver); in != nil {
+			st, ok := in.(*ssa.Store)
+			if !ok {
+				return false
+			}
+			_, l2 := f.LoadKeyOfAddr(st.Addr)
+			if l2 != loc {
+				return false
+			}
+			vals = append(vals, st.Val)
+			return true
+		}
+		if jb := f.JoinBlock(ver); jb != nil {
+			for _, p := range jb.Preds {
+				if !resolve(f.OutVersion(p, key)) {
+					return false
+				}
+			}
+			return true
+		}
+		return false
+	}
+	if !resolve(f.Version(u)) {
+		return nil, false
+	}
+	return vals, len(vals) > 0
+}
+
 func (t *Tracer) walkLoad(u *ssa.UnOp, seen map[ssa.Value]bool, out map[string]Root, depth int) {
+	if vals, ok := t.reaching(u); ok {
+		for _, v := range vals {
+			t.walk(v, seen, out, depth+1)
+		}
+		return
+	}
 	switch a := u.X.(type) {
 	case *ssa.Alloc, *ssa.FreeVar:
 		cell := CellOf(a)
@@ -412,6 +471,18 @@ func (t *Tracer) walkLoad(u *ssa.UnOp, seen map[ssa.Value]bool, out map[string]R
 			return
 		}
 		name := ssau.NamedOf(a.X.Type()) + "." + ssau.FieldName(a)
+		// object-sensitive case: the base pointer is the result of a call that
+		// returns a fresh object — only stores through that very pointer in
+		// this function, and the callee's own initialisation, can be seen.
+		if sts, ok := t.freshObjectStores(a); ok {
+			if len(sts) == 0 {
+				add(out, "const", "zero-value", u)
+			}
+			for _, s := range sts {
+				t.walk(s, seen, out, depth+1)
+			}
+			return
+		}
 		if t.FieldStoresIn != nil {
 			t.indexFieldStores()
 			if sts := t.fieldStores[name]; len(sts) > 0 {
@@ -482,6 +553,9 @@ func (t *Tracer) walkStructField(sv ssa.Value, field int, seen map[ssa.Value]boo
 			t.walkStructField(e, field, seen, out, depth+1)
 		}
 		return
+	case *ssa.Const:
+		add(out, "const", "zero-value", sv)
+		return
 	}
 	name := ssau.NamedOf(sv.Type())
 	if st := structOf(sv); st != "" {
@@ -514,4 +588,77 @@ func (t *Tracer) indexFieldStores() {
 			}
 		})
 	}
+}
+
+// FieldRoots traces field #field of the struct value sv (e.g. an options
+// struct passed by value) back to its origins.
+func (t *Tracer) FieldRoots(sv ssa.Value, field int) []Root {
+	seen := map[ssa.Value]bool{}
+	out := map[string]Root{}
+	t.walkStructField(sv, field, seen, out, 0)
+	var rs []Root
+	for _, r := range out {
+		rs = append(rs, r)
+	}
+	sort.Slice(rs, func(i, j int) bool { return rs[i].String() < rs[j].String() })
+	return rs
+}
+
+// FieldIndex returns the index of the named field in the struct type of v
+// (pointers dereferenced), or -1.
+func FieldIndex(t types.Type, name string) int {
+	if p, ok := t.Underlying().(*types.Pointer); ok {
+		t = p.Elem()
+	}
+	st, ok := t.Underlying().(*types.Struct)
+	if !ok {
+		return -1
+	}
+	for i := 0; i < st.NumFields(); i++ {
+		if st.Field(i).Name() == name {
+			return i
+		}
+	}
+	return -1
+}
+
+// freshObjectStores: when fa selects a field of an object returned fresh by a
+// statically known callee (every return is a composite literal / new of the
+// callee), returns the values stored to that field through the same pointer
+// in the loading function plus the callee's initialising stores.
+func (t *Tracer) freshObjectStores(fa *ssa.FieldAddr) ([]ssa.Value, bool) {
+	call, ok := fa.X.(*ssa.Call)
+	if !ok {
+		return nil, false
+	}
+	cal := call.Common().StaticCallee()
+	if cal == nil || cal.Blocks == nil {
+		return nil, false
+	}
+	var vals []ssa.Value
+	for _, ret := range ssau.ReturnsOf(cal) {
+		if len(ret.Results) == 0 {
+			return nil, false
+		}
+		al, ok := ssau.ResultValue(ret, 0).(*ssa.Alloc)
+		if !ok || !al.Heap {
+			return nil, false
+		}
+		vals = append(vals, fieldCellStores(al, fa.Field)...)
+	}
+	// the pointer must not escape to other functions that could write the field:
+	// accept uses as FieldAddr base, method receiver of repo methods that do not
+	// store to the field, and nothing else is checked (conservative enough for
+	// configuration objects; the caller lists the origins in its evidence).
+	fn := fa.Parent()
+	ssau.ForEachInstr(fn, true, func(in ssa.Instruction) {
+		st, ok := in.(*ssa.Store)
+		if !ok {
+			return
+		}
+		if f2, ok := st.Addr.(*ssa.FieldAddr); ok && f2.X == fa.X && f2.Field == fa.Field {
+			vals = append(vals, st.Val)
+		}
+	})
+	return vals, true
 }
